@@ -107,6 +107,10 @@ def run(ctx):
                      maxops=40 if thorough else 24, bad=30, big=thorough and b == 0) for b in range(2 if thorough else 1)]
         if g == 0:
             cfgs.append(dict(seed=ctx.seed, mode="small", level="both", maxops=3 if thorough else 2))
+            # the same with the engine's reserved names ("__swamp_meta__", "__swamp_metadata__") and with keys that
+            # are prefixes of each other as ordinary record keys
+            cfgs.append(dict(seed=ctx.seed, mode="small", level="both", maxops=2, keyset=1))
+            cfgs.append(dict(seed=ctx.seed, mode="small", level="both", maxops=2, keyset=2))
             cfgs.append(dict(seed=ctx.seed, mode="bulk"))
         if g == 1:   # long chronicler sessions: more than 100 entries, the inline compaction rewrites the file
             cfgs.append(dict(seed=ctx.seed + 77, mode="plain", level="ch", count=8, maxops=400, bad=0))
